@@ -79,6 +79,12 @@ def _col(rng, t):
     return rng.choice(t["palette"]) if t["palette"] else None
 
 
+def _h32(*parts) -> int:
+    import zlib
+
+    return zlib.crc32(":".join(map(str, parts)).encode())
+
+
 def gen_frame(rng, t, ncols: int, kind: str) -> dict:
     """kind: plain | grouped | broken (non-contiguous c0 => group_by fails) |
     broken2 (c0 contiguous, c1 non-contiguous inside a c0 group => only a two-level group_by fails)."""
@@ -131,10 +137,10 @@ def gen_frame(rng, t, ncols: int, kind: str) -> dict:
                 vals = [rng.choice(pool) if rng.random() > 0.05 else None for _ in range(nrows)]
                 if rng.random() < 0.1:
                     vals = [rng.choice(["-----", "1", "1.0", "True", "0", "None", " ", "NA"]) for _ in range(nrows)]
-                if t.get("list_cols") and (j + nrows) % 2 == 0:
+                if t.get("list_cols") and _h32(j, nrows, ncols, "list") % 3 == 0:
                     # list-valued cells (several terms per subject): their text form is polars' own (no further
                     # draws from the stream: derived from the strings just drawn)
-                    if (j + nrows) % 4 == 0:
+                    if _h32(j, nrows, ncols, "list") % 2 == 0:
                         typ = "list_int"
                         vals = [None if v is None else list(range(1, 1 + (len(v) * 7 + i) % 14)) for i, v in enumerate(vals)]
                     else:
@@ -157,6 +163,29 @@ def gen_frame(rng, t, ncols: int, kind: str) -> dict:
                     # values that are EQUAL to ints/bools but are not them, and the odd ones
                     vals = [rng.choice([0.0, 1.0, -0.0, 2.0, 1e-12, 1e15, float("inf"), float("nan"), 0.1 + 0.2])
                             for _ in range(nrows)]
+            hx = _h32(j, nrows, ncols, typ)
+            if t.get("list_cols") and hx % 2 == 1:
+                # less common column types (no draws: derived from the values just drawn)
+                if typ == "str":
+                    typ = "cat" if (hx >> 4) % 2 else "enum"
+                elif typ == "date":
+                    typ = ("datetime", "duration", "time")[(hx >> 4) % 3]
+                    if typ == "duration":
+                        vals = [int(v[-2:]) * 3600 + i for i, v in enumerate(vals)]
+                    elif typ == "time":
+                        vals = [f"{int(v[5:7]) % 24:02d}:{int(v[-2:]) % 60:02d}:{i % 60:02d}" for i, v in enumerate(vals)]
+                    else:
+                        vals = [v + "T03:04:05" for v in vals]
+                elif typ == "float" and all(v == v and abs(v) < 1e9 for v in vals):
+                    typ = "decimal" if (hx >> 4) % 2 else "f32"
+                    if typ == "decimal":
+                        vals = [f"{v:.2f}" for v in vals]
+                elif typ == "bool":
+                    typ = "null"
+                    vals = [None] * nrows
+                elif typ == "int":
+                    typ = "struct"
+                    vals = [{"a": v, "b": f"z{i % 3}"} for i, v in enumerate(vals)]
             cols.append([name, typ, vals])
     if kind == "grouped" and ncols >= 3 and rng.random() < 0.3:
         # same names, another physical order: the key column sits at another index
@@ -594,9 +623,39 @@ def build_frame(spec: dict):
     for name, typ, vals in spec["cols"]:
         if typ == "date":
             vals = [None if v is None else _dt.date.fromisoformat(v) for v in vals]
+        elif typ == "datetime":
+            vals = [None if v is None else _dt.datetime.fromisoformat(v) for v in vals]
+        elif typ == "time":
+            vals = [None if v is None else _dt.time.fromisoformat(v) for v in vals]
+        elif typ == "duration":
+            vals = [None if v is None else _dt.timedelta(seconds=v) for v in vals]
+        elif typ == "decimal":
+            import decimal as _dec
+
+            vals = [None if v is None else _dec.Decimal(v) for v in vals]
         data[name] = vals
-        schema[name] = (pl.List(getattr(pl, _PL_LIST_TYPES[typ])) if typ in _PL_LIST_TYPES
-                        else getattr(pl, _PL_TYPES[typ]))
+        if typ in _PL_LIST_TYPES:
+            schema[name] = pl.List(getattr(pl, _PL_LIST_TYPES[typ]))
+        elif typ == "cat":
+            schema[name] = pl.Categorical
+        elif typ == "enum":
+            schema[name] = pl.Enum(sorted({v for v in vals if v is not None}))
+        elif typ == "datetime":
+            schema[name] = pl.Datetime("us")
+        elif typ == "time":
+            schema[name] = pl.Time
+        elif typ == "duration":
+            schema[name] = pl.Duration("us")
+        elif typ == "decimal":
+            schema[name] = pl.Decimal(scale=2)
+        elif typ == "null":
+            schema[name] = pl.Null
+        elif typ == "f32":
+            schema[name] = pl.Float32
+        elif typ == "struct":
+            schema[name] = pl.Struct({"a": pl.Int64, "b": pl.Utf8})
+        else:
+            schema[name] = getattr(pl, _PL_TYPES[typ])
     return pl.DataFrame(data, schema=schema)
 
 
@@ -606,7 +665,13 @@ def _norm_cell(x):
         return ("f", repr(x))
     if hasattr(x, "isoformat"):
         return x.isoformat()
-    return x
+    if isinstance(x, (list, tuple)):
+        return [_norm_cell(y) for y in x]
+    if isinstance(x, dict):
+        return {k: _norm_cell(v) for k, v in x.items()}
+    if x is None or isinstance(x, (str, int, bool)):
+        return x
+    return (type(x).__name__, str(x))  # Decimal, timedelta, bytes ...
 
 
 def frame_snapshot(df) -> dict:
